@@ -1,4 +1,5 @@
 import F1Verif.Util
+import F1Verif.Model.Deadline
 namespace F1.Drive
 open F1.Util
 
@@ -27,6 +28,15 @@ def runOp (args impl : List String) : Option (String × String) := do
   let stopAt := if an "cancel" "-1" ≥ 0 ∧ an "cancel" "-1" < an "dur" "600" then an "cancel" "-1" else an "dur" "600"
   let abandonedEarly := n "inflight" > 0 ∧ maxit = 0 ∧ arg "mode" "constant" ≠ "file" ∧
     n "ret" < stopAt + an "timeout" "3000" - 60
+  -- C05 (time): the Deadline model on this case's parameters (ms → ns); the limit and the drain are the run's own
+  let msI (x : Int) : Int := x * 1000000
+  let dcfg : Deadline.Cfg := { maxDur := msI (an "dur" "600"), trigDur := msI (max 0 (n "trigdur")), timeout := msI (an "timeout" "3000"),
+                               cancelAt := if an "cancel" "-1" ≥ 0 then some (msI (an "cancel" "-1")) else none,
+                               limitAt := none, drain := fun t => t }
+  let stopMs := dcfg.stopAt / 1000000
+  let bodies := ((arg "body" "0").splitOn ",").map fun (x : String) => x.toInt?.getD 0
+  let maxBody := bodies.foldl max 0
+  let plain := ¬blocked ∧ arg "stallprogress" "0" = "0" ∧ arg "wedge" "0" = "0" ∧ (a.find? (·.1 = "sloweval")).isNone
   let spec : String :=
     if prop = "C01" ∨ prop = "C16" then
       if n "inflight" ≠ 0 ∨ blocked then "ok"
@@ -42,12 +52,14 @@ def runOp (args impl : List String) : Option (String × String) := do
       else "ok"
     else if prop = "C03" then
       if out "gapless" ≠ "1" then "FAIL iteration-ids-not-unique-and-gapless"
+      else if n "idchanged" > 0 then "FAIL iteration-id-changed-while-the-iteration-was-running"
       else if maxit > 0 ∧ n "started" > maxit then "FAIL more-invocations-than-max-iterations"
       else if maxit > 0 ∧ arg "expectlimit" "0" = "1" ∧ n "started" ≠ maxit then "FAIL fewer-invocations-than-max-iterations"
       else "ok"
     else if prop = "C04" ∨ prop = "C07" then
       if n "maxflight" > conc ∧ arg "mode" "constant" ≠ "file" then "FAIL more-than-concurrency-iterations-in-flight"
       else if n "shared" ≠ 0 then "FAIL two-concurrent-iterations-shared-a-handle"
+      else if n "setupHandleInIteration" > 0 then "FAIL iteration-was-handed-the-setup-handle"
       else if arg "expectfull" "0" = "1" ∧ n "maxflight" ≠ conc then "FAIL not-all-workers-usable"
       else "ok"
     else if prop = "C05" then
@@ -58,6 +70,10 @@ def runOp (args impl : List String) : Option (String × String) := do
       else if n "leak" ≠ 0 then "FAIL goroutine-of-the-run-remains"
       else if an "dur" "600" ≤ 10 ∧ n "started" ≠ 0 then "FAIL iteration-started-inside-the-10ms-guard"
       else if an "retmax" "0" > 0 ∧ n "ret" > an "retmax" "0" then "FAIL run-did-not-stop-on-time"
+      else if ¬setupFailed ∧ n "laststart" > stopMs + 150 then "FAIL iteration-requested-after-triggering-should-have-stopped"
+      else if ¬setupFailed ∧ maxit = 0 ∧ n "ret" < stopMs - 2 then "FAIL run-returned-before-the-earliest-stop-condition"
+      else if ¬setupFailed ∧ plain ∧ maxBody ≤ 250 ∧ n "ret" > stopMs + maxBody + an "cleanup" "0" + 1000 then "FAIL run-did-not-return-once-triggering-stopped-and-iterations-finished"
+      else if plain ∧ n "inflight" > 0 ∧ n "ret" < stopMs + an "timeout" "3000" - 60 ∧ maxit = 0 then "FAIL gave-up-on-iterations-before-the-completion-timeout"
       else if an "retmin" "0" > 0 ∧ n "ret" < an "retmin" "0" then "FAIL run-returned-before-waiting-for-in-flight-iterations"
       else "ok"
     else if prop = "C06" then
@@ -67,6 +83,8 @@ def runOp (args impl : List String) : Option (String × String) := do
       else if abandonedEarly then "FAIL teardown-ran-before-iterations-finished-or-the-completion-timeout"
       else if ¬blocked ∧ n "tdLast" ≠ 1 then "FAIL setup-cleanup-ran-before-iterations-finished"
       else if n "tdOrder" ≠ 1 then "FAIL setup-cleanups-not-once-in-reverse-order"
+      else if n "cleanupEarly" > 0 then "FAIL iteration-cleanup-ran-before-its-body-finished"
+      else if ¬blocked ∧ n "inflight" = 0 ∧ n "cleanupBad" > 0 then "FAIL iteration-cleanup-did-not-run-exactly-once"
       else "ok"
     else if prop = "C09" then
       if out "cadence" ≠ "ok" then s!"FAIL evaluation-earlier-than-one-per-interval-{out "cadence"}"
@@ -81,6 +99,13 @@ def runOp (args impl : List String) : Option (String × String) := do
       else "ok"
     else "ok"
   pure ("-", spec)
+
+/-- `result.stress <ms>` — the reporter's tick body against the controller's pre-Stop calls on one real Result -/
+def resultStress (_args impl : List String) : Option (String × String) :=
+  some ("-", if impl.isEmpty then "FAIL no-impl-output"
+    else if impl.contains "wedged=1" then "FAIL controller-and-progress-reporter-wait-for-each-other-before-Stop"
+    else if impl.contains "reporterTicks=0" ∨ impl.contains "controllerRounds=0" then "FAIL stress-did-not-run"
+    else if impl.contains "wedged=0" then "ok" else s!"FAIL {impl.headD ""}")
 
 /-- `raterun.*` — Spec on what the harness observed of the real runner -/
 def raterunOp (_args impl : List String) : Option (String × String) :=
